@@ -6,7 +6,7 @@ package main
 //
 // The theorems say, over the lexer model and the Pratt parser model: the source text
 // `renderSrc e` of an expression tree (the spellings of its rendered tokens joined by single
-// spaces; or by any well-formed gaps: blanks, optionally one block comment) lexes back to exactly
+// spaces; or by any well-formed gaps: blanks, then any number of block comments) lexes back to exactly
 // the rendered tokens and therefore parses back to `e`.  The adapter converts the lexer model's
 // output (token type string + literal bytes) into the parser model's tokens.  Checked here, on
 // every expression tree (request `C20 bridge`):
@@ -79,7 +79,8 @@ func c20bridgeBlanks(r *RNG, min int) string {
 	return sb.String()
 }
 
-var c20bridgeBodies = []string{"", " c ", "x", "* x", "**", " a + b ", " \"q\" ", "é", " // not a line comment ", " # ", "\n", " /* open", "*"}
+var c20bridgeBodies = []string{"", " c ", "x", "* x", "**", " a + b ", " \"q\" ", "é", " // not a line comment ", " # ", "\n", " /* open", "*",
+	"/", "/ a ", "/*", "//", "/ * /", "* /", "/\n"}
 
 // c20bridgeGaps: n well-formed gaps in the oracle's encoding.
 func c20bridgeGaps(r *RNG, n int) string {
@@ -88,8 +89,11 @@ func c20bridgeGaps(r *RNG, n int) string {
 	}
 	items := make([]string, n)
 	for i := range items {
-		if r.Chance(35) {
-			items[i] = "c" + Hex(c20bridgeBlanks(r, 1)) + "." + Hex(Pick(r, c20bridgeBodies)) + "." + Hex(c20bridgeBlanks(r, 0))
+		if r.Chance(40) { // blanks, then 1..4 block comments, each followed by (possibly no) blanks
+			items[i] = "c" + Hex(c20bridgeBlanks(r, 1))
+			for n := 1 + r.Intn(2)*r.Intn(4); n > 0; n-- {
+				items[i] += "." + Hex(Pick(r, c20bridgeBodies)) + "." + Hex(c20bridgeBlanks(r, 0))
+			}
 		} else {
 			items[i] = "b" + Hex(c20bridgeBlanks(r, 1))
 		}
@@ -155,7 +159,7 @@ func c20Bridge(e *Env, rng *RNG) {
 	e.R.Rule += "; BRIDGE (c20bridge.go): random expression trees of the core (C01's c01parseGen, leaves enriched: identifier " +
 		"shapes, string values needing every escape and non-ASCII runes, integer widths): the adapter on the harness text vs the " +
 		"real lexer's tokens; the real lexer and parser on Lean's renderSrc and on Lean's spellWith with random well-formed gaps " +
-		"(blanks, one block comment); distinct by text + gaps, non-trivial when the tree has >= 2 operators"
+		"(blanks, then any number of block comments with blanks between them); distinct by text + gaps, non-trivial when the tree has >= 2 operators"
 	nTrees := 400
 	if !e.Quick {
 		nTrees = 6000
@@ -258,7 +262,7 @@ func c20Bridge(e *Env, rng *RNG) {
 				e.R.Mismatch(laySrc, "lexer error: "+err.Error(), it.toks, "real lexer rejects Lean's spellWith text")
 			case toks3 != it.toks:
 				e.R.H("bridge_layout_lex", "differs")
-				e.R.Spec(laySrc, "blanks / one block comment per gap change the token stream: "+toks3+" instead of "+it.toks, "")
+				e.R.Spec(laySrc, "blanks / block comments in the gaps change the token stream: "+toks3+" instead of "+it.toks, "")
 			default:
 				e.R.H("bridge_layout_lex", "same tokens")
 				laySrcs = append(laySrcs, laySrc)
@@ -272,6 +276,13 @@ func c20Bridge(e *Env, rng *RNG) {
 			}
 			if strings.Contains(","+it.gaps, ",c") {
 				e.R.H("bridge_layout_gaps", "with block comments")
+				most := 0
+				for _, g := range strings.Split(it.gaps, ",") {
+					if n := strings.Count(g, ".") / 2; n > most {
+						most = n
+					}
+				}
+				e.R.H("bridge_layout_comments_per_gap(max)", fmt.Sprint(most))
 			} else {
 				e.R.H("bridge_layout_gaps", "blanks only")
 			}
